@@ -799,6 +799,14 @@ let pred_c13 steps impl =
              if List.exists (fun r -> List.nth_opt r 0 = Some nm) grules || List.exists (fun r -> List.nth_opt r 0 = Some nm) prules then fail ()
            | Some ("dra", nm) ->
              if List.exists (fun r -> List.nth_opt r 1 = Some nm) grules || List.exists (fun r -> List.nth_opt r 0 = Some nm) prules then fail ()
+           | Some ("dpsf", nm) ->
+             if List.exists (fun r -> List.nth_opt r 0 = Some nm) prules then fail ()
+           | Some ("drs", nm) ->
+             (* delete_roles_for_user(name, domain): nm = name or name:domain *)
+             (match String.split_on_char '/' nm with
+              | [u; "-"] -> if List.exists (fun r -> List.nth_opt r 0 = Some u) grules then fail ()
+              | [u; d] -> if List.exists (fun r -> List.nth_opt r 0 = Some u && List.nth_opt r 2 = Some d) grules then fail ()
+              | _ -> ())
            | Some ("dp", perm) ->
              let pm = String.split_on_char ',' perm in
              if List.exists (fun r -> match r with _ :: tl -> List.length tl >= List.length pm &&
@@ -834,7 +842,11 @@ let pred_c13 steps impl =
              | ["?rf"; u; d] -> Hashtbl.replace rf (u, d) (parse_names_out os.(!j));
                (* direct roles = out-neighbours *)
                if uniq (parse_names_out os.(!j)) <> uniq (List.filter_map (fun (a, b) -> if a = u then Some b else None) (edges d)) then fail ()
-             | ["?uf"; u; d] -> Hashtbl.replace uf (u, d) (parse_names_out os.(!j))
+             | ["?uf"; u; d] -> Hashtbl.replace uf (u, d) (parse_names_out os.(!j));
+               (* direct users = in-neighbours *)
+               if uniq (parse_names_out os.(!j)) <> uniq (List.filter_map (fun (a, b) -> if b = u then Some a else None) (edges d)) then fail ()
+             | ["?hr"; u; r; d] ->
+               if os.(!j) <> b01 (List.mem (u, r) (edges d)) then fail ()
              | ["?e"; vs] ->
                let vals = List.map (fun v -> String.sub v 2 (String.length v - 2)) (String.split_on_char ',' vs) in
                (match vals with
@@ -869,7 +881,8 @@ let pred_c13 steps impl =
           i := !j
         end else begin
           (match String.split_on_char ':' sts.(!i) with
-           | [("du" | "dra" | "dp") as k; x] when os.(!i) = "1" || os.(!i) = "0" -> last_delete := Some (k, x)
+           | [("du" | "dra" | "dp" | "dpsf") as k; x] when os.(!i) = "1" || os.(!i) = "0" -> last_delete := Some (k, x)
+           | ["drs"; u; d] when os.(!i) = "1" || os.(!i) = "0" -> last_delete := Some ("drs", u ^ "/" ^ d)
            | _ -> ());
           incr i
         end
